@@ -45,14 +45,33 @@ def gen_design(rng, max_wrappers=3):
         k = rng.randrange(nmod)
         kind = rng.choice(["reset", "enable", "enable", "rename"])
         if kind == "rename":
-            src = rng.choice(real + VIRT + VIRT)
-            wrappers[k].append({"kind": "rename", "map": {src: rng.choice(real)}})
+            if rng.random() < 0.35 and len(real) >= 2:
+                # several renames at once, chained or exchanging ({"a": "b", "b": "a"}): one simultaneous substitution
+                srcs = rng.sample(real + VIRT, rng.choice([2, 2, 3]))
+                mp = {}
+                for sname in srcs:
+                    mp[sname] = rng.choice([x for x in real if x != sname] or real)
+                if rng.random() < 0.5:
+                    a_, b_ = rng.sample(real, 2)
+                    mp = {a_: b_, b_: a_} if rng.random() < 0.5 else {b_: a_, a_: b_}
+                wrappers[k].append({"kind": "rename", "map": mp})
+            else:
+                src = rng.choice(real + VIRT + VIRT)
+                wrappers[k].append({"kind": "rename", "map": {src: rng.choice(real)}})
         elif rng.random() < 0.35:
             # one inserter call with controls for several domains
             names = rng.sample(real + VIRT, min(len(real + VIRT), rng.choice([2, 2, 3])))
             wrappers[k].append({"kind": kind, "ctl": {nm: rng.randrange(nctrl) for nm in names}})
         else:
             wrappers[k].append({"kind": kind, "dom": rng.choice(real + VIRT), "ctrl": rng.randrange(nctrl)})
+    force = None
+    if len(real) >= 2 and rng.random() < 0.25:
+        # a memory directly under a renamer whose map chains or exchanges domains, with a port in the first-listed one
+        a_, b_ = rng.sample(real, 2)
+        c_ = rng.choice(real)
+        mp = rng.choice([{a_: b_, b_: a_}, {a_: b_, b_: c_}, {"v0": a_, a_: b_}, {a_: b_, "v1": a_, b_: a_}])
+        force = (rng.randrange(nmod), next(iter(mp)))
+        wrappers[force[0]].insert(0, {"kind": "rename", "map": mp})
     design = {"domains": domains, "tree": tree, "wrappers": wrappers, "nctrl": nctrl, "regs": [], "mem": None}
 
     def pick_dom(mod):
@@ -80,9 +99,11 @@ def gen_design(rng, max_wrappers=3):
                           "cond": rng.choice([None, None, rng.randrange(nctrl)])})
         if parts:
             design["regs"].append({"w": w, "init": rng.getrandbits(w), "reset_less": rng.random() < 0.25, "parts": parts})
-    if rng.random() < 0.3:
+    if rng.random() < 0.4 or force is not None:
         mod = rng.randrange(nmod)
         dom = pick_dom(mod)
+        if force is not None and resolve(design, force[0], force[1])[0] in real:
+            mod, dom = force
         if dom is not None:
             design["mem"] = {"mod": mod, "dom": dom, "depth": rng.choice([2, 3, 4]), "w": 4}
     return design
